@@ -68,6 +68,44 @@ CLAIMS = {
         "finite-domain evaluation of the kind tables + truth-table extraction of binder markers",
         "docs/type_evaluation.md is the oracle for the kind table.",
     ),
+    "C07": (
+        "Decides: (R07.a) at every can_assign call between a value derived from the expected signature and one "
+        "derived from the actual signature (roles by def-use, propagated into can_assign_var_positional/keyword "
+        "from their call sites) parameter annotations are checked actual.can_assign(expected), return annotations "
+        "and whole signatures expected.can_assign(actual); (R07.b) every arm pairing an expected with an actual "
+        "parameter rejects `expected has a default, actual has none`; (R07.c) the tail loop rejects unconsumed "
+        "required parameters of the actual signature per kind. That an accepted pair is safe for every call shape "
+        "is not decided.",
+        "def-use role inference + sibling-arm parity on Signature.can_assign",
+        "Roles are seeded from self/other; operands with mixed roles are skipped and counted in evidence.",
+    ),
+    "C09": (
+        "Decides the merge discipline: (R09.a) every captured branch scope reaches combine_subscopes (directly, via a "
+        "local list, or via a helper parameter); (R09.b) conditionally executed children are visited inside a "
+        "subscope (if/else, loop body/else incl. the second collecting pass, try body/handlers/else, case bodies, "
+        "and/or operands, suppressing with-bodies, failing path of finally); (R09.c) return/raise/break/continue "
+        "set their leave markers and get_combined_scope routes them; (R09.d) resolve_name reports undefined and "
+        "possibly undefined names. Equality with an independent CFG reaching-definitions analysis is not decided.",
+        "def-use flow of scope captures + lexical scoping table over the visitor",
+        "The table of conditional children per visitor method is encoded from Python's execution model.",
+    ),
+    "C17": (
+        "Decides table agreement only: (R17.1) the conversion-type / flag / length-modifier character classes of the "
+        "%-format regex (read through re._parser), the characters handled by ConversionSpecifier.accept_no_mvv and "
+        "CPython's documented alphabets for str and bytes agree, %b is linted for str; (R17.2) str.format "
+        "conversions {r,s,a}, field-name specials and brace escapes; (R17.3) the result type is the template's "
+        "type. Agreement with CPython's formatter on every template/argument pair is not decided.",
+        "regex AST + folded constant tables against the documented alphabets",
+        "CPython's alphabets are encoded from Objects/unicodeobject.c and bytesobject.c.",
+    ),
+    "C19": (
+        "Decides: (R19.1) the binary/unary operator tables cover every ast.operator class and the rich comparisons "
+        "with (__op__, __iop__, __rop__) per the data model and the reflected-comparison pairs; (R19.2) "
+        "unsupported_operation is reported only when both the direct and the reflected dunder call failed, the "
+        "reflected call swaps the operands. `diagnosed iff CPython raises` and literal results are not decided.",
+        "folded operator tables against the data model + guard analysis of the fallback",
+        "The data-model table is encoded from the language reference 3.3.",
+    ),
     "C10": (
         "Decides: (R10.1) no set/frozenset-typed value (typed from literals, constructors, set algebra, annotations "
         "of fields/parameters/returns, one inter-procedural step) reaches an order-observable construct (ordered "
